@@ -170,7 +170,7 @@ AddTry(c, nxt) ==
 \* [install]
 AddInstall(c) ==
   /\ K
-  /\ InCall(c) /\ Top(c).st = "checked"
+  /\ InCall(c) /\ Top(c).st \in {"checked", "wchecked"}
   /\ LET f == Top(c)  o == f.op IN
      /\ o.ni \notin lockF
      /\ CASE o.kind = "nh"  -> nh' = [nh EXCEPT ![o.ni] = @ \cup {o.key}] /\ UNCHANGED <<nhg, ip>>
@@ -207,6 +207,17 @@ AddWalk(c, nxt) ==
         /\ Settle(c, stk, me.done, me.oks, me.fails, nxt)
   /\ UNCHANGED <<ribvars, lockF, fpc>>
 
+\* A goroutine released from its gate while the Flush caller holds the write lock of the instance it is about to
+\* change waits inside Lock(); it goes on by itself when the Flush returns.  One waiter at a time: which of several
+\* waiters the runtime serves first cannot be forced.
+Waiting(c) == InCall(c) /\ Top(c).st \in {"wchecked", "wdchecked"}
+Block(c) ==
+  /\ K
+  /\ InCall(c) /\ Top(c).st \in {"checked", "dchecked"} /\ Top(c).op.ni \in lockF
+  /\ ~\E d \in Callers : Waiting(d)
+  /\ cpc' = [cpc EXCEPT ![c] = SetTop(c, [Top(c) EXCEPT !.st = "w" \o @])]
+  /\ UNCHANGED <<ribvars, lockF, fpc, rets>>
+
 (* ------------------------------ DeleteEntry ----------------------------- *)
 Referenced(o) == CASE o.kind = "nhg" -> o.key \in DOMAIN nhg[o.ni] /\ Cnt(refNHG[o.ni], o.key) > 0
                    [] o.kind = "nh"  -> o.key \in nh[o.ni] /\ Cnt(refNH[o.ni], o.key) > 0
@@ -227,7 +238,7 @@ DelBegin(c) ==
 
 DelRemove(c) ==
   /\ K
-  /\ InCall(c) /\ Top(c).st = "dchecked"
+  /\ InCall(c) /\ Top(c).st \in {"dchecked", "wdchecked"}
   /\ LET f == Top(c)  o == f.op IN
      /\ o.ni \notin lockF
      /\ CASE o.kind = "nh"  -> nh' = [nh EXCEPT ![o.ni] = @ \ {o.key}] /\ UNCHANGED <<nhg, ip>>
@@ -296,7 +307,8 @@ GateOf(me) ==
   IF me.stk = <<>> THEN "ret"
   ELSE LET st == me.stk[Len(me.stk)].st IN
        CASE st = "try" -> "add.try" [] st = "checked" -> "add.checked" [] st = "installed" -> "add.installed"
-         [] st = "counted" -> "add.counted" [] st = "dchecked" -> "del.checked" [] st = "dremoved" -> "del.removed" [] OTHER -> "?"
+         [] st = "counted" -> "add.counted" [] st = "dchecked" -> "del.checked" [] st = "dremoved" -> "del.removed"
+         [] st \in {"wchecked", "wdchecked"} -> "blocked" [] OTHER -> "?"
 GidOf(me) == IF me.stk # <<>> /\ me.stk[Len(me.stk)].st \in {"try", "counted"} THEN me.stk[Len(me.stk)].op.id ELSE 0
 FGate(f) == CASE f.st = "run" -> "flush.ni" [] f.st = "end" -> "flush.done" [] OTHER -> "ret"
 
